@@ -178,6 +178,12 @@ def weightSalF {F K T : Nat} (eps : α) (aff : Fin F → Fin K → Fin T → α)
 def weightSalFT {F K T : Nat} (eps : α) (aff : Fin F → Fin K → Fin T → α) (s : Fin F → Fin T → α) : Fin K → α :=
   l1Where eps fun k => vsum fun f => vsum fun t => aff f k t * s f t
 
+/-- saliency given, tuple form tied over the class axis only (`weight_constant_axis=(-2,)`, the default of
+`GMMTrainer.fit_predict`): the sum over the classes is L1-normalised over the (now singleton) class axis and every
+class gets the equal share `1/K` of it (one stored value per frame) -/
+def weightSalK {K : Nat} (eps : α) (aff : Fin K → α) (s : α) : α :=
+  l1Where eps (fun _ : Fin 1 => vsum fun k => aff k * s) 0 / (K : α)
+
 /-- integration models, `weight_constant_axis=(-1,)`: one weight vector per bin -/
 def weightIntT {K T : Nat} (tiny : α) (aff : Fin K → Fin T → α) (s : Fin T → α) : Fin K → α :=
   l1Plain tiny fun k => vsum fun t => aff k t * s t
